@@ -221,7 +221,7 @@ def correspondence(ctx) -> C.Part:
     from speckit import core
     P = C.Part()
     rng = ctx.rng
-    n = ctx.scale(60, 400)
+    n = ctx.scale(200, 1500)
     for i in range(n):
         if ctx.time_left() < 30:
             P.notes.append("time budget reached")
@@ -287,7 +287,7 @@ def oracle(ctx, intensive: bool = False, hints=()) -> C.Part:
     for c in CORPUS:
         CHECKS[c["kind"]](P, c)
     t_all = max(30.0, min(ctx.time_left() - 20.0, (600.0 if ctx.thorough else 70.0) * mult))
-    for kind, n, share in (("leak", ctx.scale(90, 900) * mult, 0.75), ("plan", ctx.scale(12, 120) * mult, 0.25)):
+    for kind, n, share in (("leak", ctx.scale(400, 4000) * mult, 0.75), ("plan", ctx.scale(40, 300) * mult, 0.25)):
         t0 = time.time()
         for i in range(n):
             if full(P):
